@@ -25,3 +25,27 @@ def leptonic_coupling_wrong(self, mode, quark_coupling_type):
     if quark_coupling_type in ["VV", "AA"]:
         return projectile_v**2 + projectile_a**2 + 2.0 * pol * projectile_v * projectile_a
     return 2.0 * projectile_v * projectile_a + pol * (projectile_v**2 + projectile_a**2)
+
+
+def leptonic_coupling_noflip(self, mode, quark_coupling_type):
+    """leptonic_coupling without any beam-dependent polarisation flip (breaks e+(P) = e-(-P))."""
+    if mode == "WW":
+        return 2
+    projectile_pid = self.obs_config["projectilePID"]
+    pol = self.obs_config["polarization"]
+    projectile_v = 0.0
+    projectile_a = 0.0
+    if mode in ["phZ", "ZZ"]:
+        projectile_v = self.vectorial_coupling(abs(projectile_pid))
+        projectile_a = self.weak_isospin_3[abs(projectile_pid)]
+    if mode == "phph":
+        if quark_coupling_type in ["VV", "AA"]:
+            return self.electric_charge[abs(projectile_pid)] ** 2
+        return 0
+    if mode == "phZ":
+        if quark_coupling_type in ["VV", "AA"]:
+            return self.electric_charge[abs(projectile_pid)] * (projectile_v + pol * projectile_a)
+        return self.electric_charge[abs(projectile_pid)] * (projectile_a + pol * projectile_v)
+    if quark_coupling_type in ["VV", "AA"]:
+        return projectile_v**2 + projectile_a**2 + 2.0 * pol * projectile_v * projectile_a
+    return 2.0 * projectile_v * projectile_a + pol * (projectile_v**2 + projectile_a**2)
